@@ -32,6 +32,40 @@ pub fn collision_probes(m: &MNode, multi_opt: &mut u64, key_collide: &mut u64, b
     }
 }
 
+fn exec_process_twin(c: &crate::cli::CliCase, ctr: &mut Ctr) -> Result<Exec, String> {
+    let Some(te) = c.twin_entropy else { return Ok(super::skip("no_twin_entropy")) };
+    let sb = std::path::PathBuf::from(format!("{}/work/C05/sb-{}", crate::driver::verif_dir(), std::process::id()));
+    let a = crate::cli::run_cli(c, c.entropy, &sb)?;
+    let b = crate::cli::run_cli(c, te, &sb)?;
+    bump(ctr, "fault.process_entropy_twin");
+    if a.fired.getrandom_seeded == 0 && a.exit == Some(0) {
+        return Err("shim not live: the child rendered without asking the shim for entropy".into());
+    }
+    let mut violation = None;
+    if a.exit != b.exit || a.stdout != b.stdout || a.after.bytes != b.after.bytes {
+        violation = Some(Violation {
+            class: "render_differs_across_processes".into(),
+            detail: format!(
+                "the CLI run twice on the same input with hash entropies {:032x} / {:032x} produced\n{}{}\n--- and ---\n{}{}",
+                c.entropy,
+                te,
+                String::from_utf8_lossy(&a.stdout),
+                String::from_utf8_lossy(&a.after.bytes),
+                String::from_utf8_lossy(&b.stdout),
+                String::from_utf8_lossy(&b.after.bytes)
+            ),
+        });
+    }
+    let mut fp = Fnv::new();
+    fp.str(&c.to_j().to_string());
+    let mut tr = Fnv::new();
+    tr.bytes(&a.stdout);
+    tr.bytes(&a.after.bytes);
+    tr.bytes(&b.stdout);
+    tr.u64(a.exit.unwrap_or(-1) as u64);
+    Ok(Exec { violation, trace: tr.0, fingerprint: fp.0, nontrivial: a.exit == Some(0), sim_steps: a.fired.calls + b.fired.calls, discarded: None, shape: 0, env_sig: 0 })
+}
+
 impl Prop for C05 {
     fn id(&self) -> &'static str {
         "C05"
@@ -45,6 +79,35 @@ impl Prop for C05 {
     }
     fn gen(&self, seed: u64) -> Scenario {
         let mut rng = Rng::new(seed);
+        if rng.pct(2) {
+            // process twin: the shipped binary run twice under the shim with two different hash entropies
+            let mut cfg = GenCfg::draw(&mut rng, true);
+            cfg.p_absent = *rng.pick(&[30, 60]);
+            cfg.p_selfclose = *rng.pick(&[0, 50]);
+            let (_sk, docs) = super::gen_history(&mut rng, &cfg, 1);
+            let by_name = rng.pct(30);
+            let serde_xml_rs = rng.pct(30);
+            let mut opt_args = Vec::new();
+            if by_name {
+                opt_args.push("--sort=name".to_string());
+            }
+            if serde_xml_rs {
+                opt_args.push("--parser=serde-xml-rs".to_string());
+            }
+            return Scenario::Cli(crate::cli::CliCase {
+                input_name: "in.xml".into(),
+                input: crate::cli::InState::Present(docs[0].ser()),
+                output_name: "out.rs".into(),
+                output: if rng.pct(50) { crate::cli::OutState::Stdout } else { crate::cli::OutState::New },
+                opt_args,
+                serde_xml_rs,
+                by_name,
+                derive: None,
+                plan: vec![],
+                entropy: rng.u128(),
+                twin_entropy: Some(rng.u128()),
+            });
+        }
         let bias = rng.pct(70);
         let mut cfg = GenCfg::draw(&mut rng, bias);
         // entropy can only matter where children get demoted: make absences common
@@ -74,7 +137,10 @@ impl Prop for C05 {
         Scenario::Session(Session { alts: vec![None; docs.len()], docs, replicas, opts: all_opts(&derive) })
     }
     fn exec(&self, sc: &Scenario, ctr: &mut Ctr) -> Result<Exec, String> {
-        let Scenario::Session(s) = sc;
+        if let Scenario::Cli(c) = sc {
+            return exec_process_twin(c, ctr);
+        }
+        let Scenario::Session(s) = sc else { return Ok(super::skip("not_a_session")) };
         if s.replicas.iter().any(|r| r.steps != s.replicas[0].steps) {
             // entropy twins must receive identical deliveries; anything else is not a C05 scenario
             return Ok(Exec { violation: None, trace: 0, fingerprint: 0, nontrivial: false, sim_steps: 0, discarded: Some("twins_differ".into()), shape: 0, env_sig: 0 });
@@ -161,7 +227,7 @@ impl Prop for C05 {
         })
     }
     fn rule(&self) -> &'static str {
-        "a case = one history of 1-4 generated documents parsed+extended by 2-4 entropy twins (fresh threads, PRNG-chosen RandomState keys) and rendered with all preset x sort combinations, twice per thread, after every delivery; distinct = distinct serialised history; non-trivial = >=2 twins AND some schema position has >=2 optional children AND two sibling names with the same snake-case field key (the only shape where hash order can reach the output)"
+        "98% of cases: one history of 1-4 generated documents parsed+extended by 2-4 entropy twins (fresh threads, PRNG-chosen RandomState keys) and rendered with all preset x sort combinations, twice per thread, after every delivery; distinct = distinct serialised history; non-trivial = >=2 twins AND some schema position has >=2 optional children AND two sibling names with the same snake-case field key (the only shape where hash order can reach the output); 2% of cases are process twins: the shipped CLI binary run twice on one generated document under the LD_PRELOAD shim with two different entropies, outputs compared byte for byte (non-trivial when the run succeeds)"
     }
     fn real_components(&self) -> Vec<&'static str> {
         vec!["xml_schema_generator (parser, element, identifier, necessity)", "quick-xml Reader", "std HashMap/RandomState/SipHash", "std BufReader (when drawn)"]
